@@ -30,7 +30,8 @@ for pid in props:
             continue
         try:
             t = time.time()
-            r = subprocess.run([os.path.join(VERIF, 'check'), pid], capture_output=True, text=True, cwd=VERIF)
+            r = subprocess.run([os.path.join(VERIF, 'check'), pid], capture_output=True, text=True, cwd=VERIF,
+                               env=dict(os.environ, VERIF_EVIDENCE_DIR=os.path.join(VERIF, 'scratch', 'evidence_changed_tree')))
             dt = round(time.time() - t, 1)
         finally:
             subprocess.run(['git', '-C', '/repo', 'checkout', '--', '.'], check=True)
